@@ -430,7 +430,8 @@ pub struct WCase {
     pub mode: ModeC,
     pub content: Content,
     pub writes: Vec<u32>,
-    /// 0 = write, 1 = write_all, 2 = io::copy with a chunked source, 3 = write_vectored, 4 = BufWriter
+    /// 0 = write, 1 = write_all, 2 = io::copy with a chunked source, 3 = write_vectored (two halves per write), 4 = BufWriter,
+    /// 5 = one write_vectored call over all slices (repeated for the remainder), 6 = the same three slices at a time
     pub how: u8,
 }
 
@@ -439,7 +440,36 @@ pub fn check_write(c: &WCase) -> Result<(), String> {
     let data = c.content.expand(total);
     let mut h = c.mode.hasher();
     let mut pos = 0usize;
-    match c.how % 5 {
+    match c.how % 7 {
+        5 | 6 => {
+            // write_vectored with many slices per call (how 5: all of them, how 6: three at a time); after a partial
+            // write the call is repeated with the slices that remain, as write_all_vectored does
+            let mut slices: Vec<&[u8]> = Vec::new();
+            for w in &c.writes {
+                slices.push(&data[pos..pos + *w as usize]);
+                pos += *w as usize;
+            }
+            let group = if c.how % 7 == 5 { slices.len().max(1) } else { 3 };
+            for g in slices.chunks(group) {
+                let mut rest: Vec<&[u8]> = g.to_vec();
+                let mut guard = 0;
+                while rest.iter().any(|s| !s.is_empty()) {
+                    let bufs: Vec<io::IoSlice> = rest.iter().map(|s| io::IoSlice::new(s)).collect();
+                    let mut n = h.write_vectored(&bufs).map_err(|e| e.to_string())?;
+                    let want: usize = rest.iter().map(|s| s.len()).sum();
+                    ensure!(n <= want, "write_vectored reports {} bytes written, only {} were offered", n, want);
+                    ensure!(n > 0, "write_vectored wrote nothing although {} bytes were offered", want);
+                    for s in rest.iter_mut() {
+                        let k = core::cmp::min(n, s.len());
+                        *s = &s[k..];
+                        n -= k;
+                    }
+                    guard += 1;
+                    ensure!(guard < 100_000, "ENGINE: write_vectored loop does not terminate");
+                }
+            }
+            h.flush().map_err(|e| e.to_string())?;
+        }
         4 => {
             let mut bw = io::BufWriter::with_capacity(777, &mut h);
             for w in &c.writes {
@@ -482,7 +512,7 @@ pub fn check_write(c: &WCase) -> Result<(), String> {
 }
 
 fn write_strategy(_tier: Tier) -> BoxedStrategy<WCase> {
-    (gen::mode4(), gen::content(), prop::collection::vec(prop_oneof![0u32..=100, 0u32..=3000, 0u32..=40_000], 0..12), 0u8..5)
+    (gen::mode4(), gen::content(), prop::collection::vec(prop_oneof![4 => 0u32..=100, 4 => 0u32..=3000, 4 => 0u32..=40_000, 1 => 60_000u32..=200_000, 1 => crate::gen::select(vec![65_535u32, 65_536, 65_537, 131_072])], 0..12), 0u8..7)
         .prop_map(|(mode, content, writes, how)| WCase { mode, content, writes, how })
         .boxed()
 }
@@ -521,10 +551,10 @@ pub fn subs() -> Vec<Box<dyn DynSub>> {
         }),
         Box::new(PropSub::<WCase> {
             name: "write-adapter",
-            rule: "proptest: the same bytes delivered through Write::write (must return buf.len()), write_all, io::copy from a short-read source, write_vectored, BufWriter; oracle: count() and hash == spec",
+            rule: "proptest: the same bytes delivered through Write::write (must return buf.len()), write_all, io::copy from a short-read source, write_vectored (two halves per write, all slices in one call, or three at a time, with slices from 0 bytes to 200 KB incl. 64 KiB +-1), BufWriter; oracle: count() and hash == spec",
             cases: (12_000, 60_000),
             strategy: write_strategy,
-            classify: |c| Classes::new(c.writes.len() >= 2).tag(c.how % 5 == 0, "write").tag(c.how % 5 == 1, "write_all").tag(c.how % 5 == 2, "io::copy").tag(c.how % 5 == 3, "write_vectored").tag(c.how % 5 == 4, "BufWriter"),
+            classify: |c| Classes::new(c.writes.len() >= 2).tag(c.how % 7 == 0, "write").tag(c.how % 7 == 1, "write_all").tag(c.how % 7 == 2, "io::copy").tag(c.how % 7 == 3, "write_vectored(2)").tag(c.how % 7 == 4, "BufWriter").tag(c.how % 7 == 5, "write_vectored(all)").tag(c.how % 7 == 6, "write_vectored(3)").tag(c.writes.iter().any(|w| *w >= 65_536), "slice>=64KiB"),
             check: check_write,
             known: None,
             crumb: false,
